@@ -162,3 +162,23 @@ def test_c04_hrnp_checksum_covers_the_bytes_it_sends_when_the_date_changes_durin
     finally:
         lpm.date = real
     assert HRNP.from_bytes(raw).checksum_correct is True
+
+
+def test_c17_reject_carrying_text_that_is_no_valid_utf16_does_not_raise():
+    from asyncio import DatagramTransport
+    from okdmr.dmrlib.protocols.hytera.rrs_datagram_protocol import RRSDatagramProtocol
+
+    class T(DatagramTransport):
+        def __init__(self):
+            super().__init__()
+            self.sent = []
+
+        def sendto(self, data, addr=None):
+            self.sent.append(bytes(data))
+
+        def is_closing(self):
+            return False
+
+    p, t = RRSDatagramProtocol(port=1), T()
+    p.connection_made(t)
+    p.datagram_received(bytes.fromhex("3242001000030900a1000f000000010a0000020a00000100d8415103"), ("192.0.2.1", 1))
